@@ -415,17 +415,74 @@ def foreachLoop (flags : Key → Nat) : Nat → Table → Iter → List (Key × 
 def foreach (t : Table) (flags : Key → Nat) : ForeachRes :=
   foreachLoop flags (2 * t.size + 1) t (iterBegin t) []
 
-/-! ### aws_hash_table_eq (value_eq = pointer equality of values through s_safe_eq_check) -/
+/-! ### explicit iterator programs: `begin; (visit; [delete(destroy?)]; next)* until done or stop` -/
 
-def valEq (a b : Val) : Bool := a == b
+/-- what the caller decides at the element the iterator shows: delete it (`some destroy_contents`) or not,
+and go on to the next element or stop -/
+structure Decision where
+  delete : Option Bool
+  goOn : Bool
+deriving DecidableEq, Repr
 
-def tableEq (h : Nat → Nat) (a b : Table) : Bool :=
+structure PassRes where
+  table : Table
+  visits : List (Key × Val)
+  dels : List ((Key × Val) × Bool)     -- elements deleted through the iterator, with their destroy flag
+  log : List Ev
+  ok : Bool                            -- false: out of fuel / iterator without element (never: theorem)
+deriving DecidableEq, Repr
+
+/-- the caller's loop `for (it = begin; !done(it); next(it)) { decide; maybe delete; maybe break; }`; the
+decision may depend on everything seen so far -/
+def iterPassLoop (policy : List (Key × Val) → Key × Val → Decision) :
+    Nat → Table → Iter → List (Key × Val) → List ((Key × Val) × Bool) → List Ev → PassRes
+  | 0, t, _, vis, dels, log => ⟨t, vis, dels, log, false⟩
+  | fuel+1, t, it, vis, dels, log =>
+    if iterDone it then ⟨t, vis, dels, log, true⟩
+    else match it.elem with
+      | none => ⟨t, vis, dels, log, false⟩
+      | some kv =>
+        match (policy vis kv).delete with
+        | none =>
+          if (policy vis kv).goOn then iterPassLoop policy fuel t (iterNext t it) (vis ++ [kv]) dels log
+          else ⟨t, vis ++ [kv], dels, log, true⟩
+        | some destroy =>
+          match iterDelete t it destroy with
+          | none => ⟨t, vis ++ [kv], dels, log, false⟩
+          | some (t', it', l) =>
+            if (policy vis kv).goOn then
+              iterPassLoop policy fuel t' (iterNext t' it') (vis ++ [kv]) (dels ++ [(kv, destroy)]) (log ++ l)
+            else ⟨t', vis ++ [kv], dels ++ [(kv, destroy)], log ++ l, true⟩
+
+def iterPass (t : Table) (policy : List (Key × Val) → Key × Val → Decision) : PassRes :=
+  iterPassLoop policy (2 * t.size + 1) t (iterBegin t) [] [] []
+
+/-! ### aws_hash_table_swap / aws_hash_table_move: a table handle is `Option Table` (`p_impl`, `none` = NULL) -/
+
+/-- `tmp = *a; *a = *b; *b = tmp` : the new `(a, b)` -/
+def swapTables (a b : Option Table) : Option Table × Option Table := (b, a)
+
+/-- `*to = *from; AWS_ZERO_STRUCT(*from)` : the new `(to, from)` -/
+def moveTable (src : Option Table) : Option Table × Option Table := (src, none)
+
+/-! ### aws_hash_table_eq -/
+
+/-- `s_safe_eq_check(value_eq, a, b)` on values: same pointer → equal; exactly one NULL → different;
+otherwise ask the callback (`veq` on the two non-NULL values) -/
+def safeEq (veq : Nat → Nat → Bool) (a b : Val) : Bool :=
+  if a = b then true
+  else match a, b with
+    | some x, some y => veq x y
+    | _, _ => false
+
+/-- `aws_hash_table_eq(a, b, value_eq)` as written: compare the counts, then look every entry of `a` up in `b` -/
+def tableEq (h : Nat → Nat) (veq : Nat → Nat → Bool) (a b : Table) : Bool :=
   if a.entryCount ≠ b.entryCount then false
   else a.slots.toList.all fun o => match o with
     | none => true
     | some e => match find h b e.key with
       | none => false
-      | some (_, bv) => valEq e.val bv
+      | some (_, bv) => safeEq veq e.val bv
 
 /-! ### abstraction: the entries of a table, in slot order -/
 
